@@ -73,3 +73,112 @@ def accepted_widths(run, r, param="bytes"):
                             continue     # not an exact-length parser
                         return {consumed + w for w in ws}
     return ("open", consumed)
+
+# ---------------------------------------------------------------- encode(decode(bytes)) == bytes
+# library constructors that store the supplied encoding verbatim and whose as_bytes()/to_bytes() return it unchanged
+PRESERVING = (
+    "ed25519_dalek::verifying::VerifyingKey::from_bytes",
+    "libsodium_rs::crypto_sign::PublicKey::from_bytes", "libsodium_rs::crypto_sign::SecretKey::from_bytes",
+    "libsodium_rs::crypto_sign::PublicKey::from_bytes_exact",
+)
+# parse/serialise pairs that are mutually inverse on inputs of the stated exact width
+INVERSE_PAIRS = {
+    # serialiser (applied to parser(x))           parser                                               width
+    "ENCPUB": (("ecdsa::verifying::VerifyingKey::<NistP384>::from_sec1_bytes", "lc::VerifyingKey::from_sec1_bytes"), 49),
+    "ecdsa::signing::SigningKey::<NistP384>::to_bytes": (("P384SK-from_slice",), 48),
+    "lc::SigningKey::encode": (("lc::SigningKey::from_sec1_bytes",), 48),
+}
+
+def _unok(t):
+    while isinstance(t, tuple) and t and t[0] == "ok":
+        t = t[1]
+    return t
+
+def strip_roundtrip(nm, t):
+    """Rewrite serialise(parse(x)) -> x for the listed library pairs, bottom-up."""
+    if not isinstance(t, tuple) or not t:
+        return t
+    t = tuple(strip_roundtrip(nm, x) for x in t)
+    u = _unok(t)
+    if isinstance(u, tuple) and u and u[0] == "call" and u[1] in PRESERVING and len(u[2]) == 1:
+        x = _unok(u[2][0])
+        return x[1] if isinstance(x, tuple) and x and x[0] == "tryarray" else x
+    if isinstance(u, tuple) and u and u[0] == "tryarray":
+        return u[1]
+    if isinstance(u, tuple) and u and u[0] == "ENCPUB":
+        k = _unok(u[1])
+        if isinstance(k, tuple) and k[0] == "call" and k[1] in INVERSE_PAIRS["ENCPUB"][0]:
+            return k[2][0]
+    if isinstance(u, tuple) and u and u[0] == "call" and u[1] == "ecdsa::signing::SigningKey::<NistP384>::to_bytes":
+        k = _unok(u[2][0])
+        # SigningKey::from(SecretKey::from_slice(b))
+        if isinstance(k, tuple) and k[0] == "call" and "Into<SigningKey<NistP384>>" in k[1] or (isinstance(k, tuple) and k[0] == "call" and "From<SecretKey<NistP384>>" in k[1]):
+            inner = _unok(k[2][0])
+            if isinstance(inner, tuple) and inner[0] == "call" and inner[1] == "elliptic_curve::secret_key::SecretKey::<NistP384>::from_slice":
+                return inner[2][0]
+    if isinstance(u, tuple) and u and u[0] == "call" and u[1] == "lc::SigningKey::encode":
+        k = _unok(u[2][0])
+        if isinstance(k, tuple) and k[0] == "call" and k[1] == "lc::SigningKey::from_sec1_bytes":
+            return k[2][0]
+    if t[0] == "ok" and isinstance(u, tuple) and u and u[0] in ("in", "sl", "cat"):
+        t = u
+    if isinstance(u, tuple) and u and u[0] == "cat":
+        # merge adjacent slices of the same buffer
+        parts = list(u[1])
+        out = []
+        for p in parts:
+            if out and isinstance(p, tuple) and p[0] == "sl" and isinstance(out[-1], tuple) and out[-1][0] == "sl" and out[-1][1] == p[1] and out[-1][3] == p[2]:
+                out[-1] = ("sl", p[1], out[-1][2], p[3])
+            else:
+                out.append(p)
+        if len(out) == 1:
+            o = out[0]
+            if isinstance(o, tuple) and o[0] == "sl" and o[2] == (0, 0) and o[3] == (0, 1):
+                return o[1]
+            return o
+        return ("cat", tuple(out))
+    return t
+
+def subst_term(t, old, new):
+    if t == old:
+        return new
+    if isinstance(t, tuple):
+        return tuple(subst_term(x, old, new) for x in t)
+    return t
+
+def encode_decode_identity(world, crate, kind):
+    """For every success path of HasKey<kind>::decode: HasKey<kind>::encode of the resulting key yields the input bytes."""
+    from interp import Path
+    from norm import fn as fmt_n
+    d = find_impl_fn(world, crate, "::HasKey", "decode", kind)
+    e = find_impl_fn(world, crate, "::HasKey", "encode", kind)
+    if d is None or e is None:
+        return False, "anchor missing: HasKey encode/decode", d
+    drun = Run(world, d)
+    probs = []
+    if not drun.ok_paths:
+        probs.append("decode has no success path")
+    for r in drun.ok_paths:
+        key = drun.interp.okv(None, r.path, r.ret)
+        keyv = drun.interp.argval(r.path, key)
+        erun = Run(world, e, args=[("ptr", ("T", keyv))], path=Path())
+        erun.norm.input_widths.update(drun.norm.input_widths)
+        rets = [x for x in erun.results if x.kind == "return"]
+        if len(rets) != 1:
+            probs.append(f"encode has {len(rets)} return paths")
+            continue
+        out = erun.norm.n(erun.interp.argval(rets[0].path, rets[0].ret))
+        # equalities established by decode's guards (e.g. derived public key == embedded public key)
+        for g in r.path.guards:
+            c = drun.norm.n(g["cond"])
+            if isinstance(c, tuple) and c[0] == "call" and c[1].endswith("PartialEq>::ne") and g["value"] == 0 and len(c[2]) == 2:
+                a, b = c[2]
+                out = subst_term(out, a, b)
+                out = subst_term(out, ("ENCPUB", a), ("ENCPUB", b))
+        prev = None
+        while prev != out:
+            prev = out
+            out = strip_roundtrip(erun.norm, out)
+        if out != ("in", "bytes"):
+            probs.append("encode(decode(bytes)) is not bytes (the key does not keep the supplied encoding): " + fmt_n(out)[:300])
+    return (not probs), "; ".join(sorted(set(probs))), d
